@@ -10,7 +10,7 @@ from ural.data import ISO_3166_1_COUNTRIES_ALPHA_2
 import z3
 
 BOUNDS = {
-    "quick": "case flips of symbolic ASCII letters in scheme / host / path / query / fragment (holes of length <= 2); any port 1..65535 (symbolic 1-5 digit string); "
+    "quick": "case flips of symbolic ASCII letters in scheme / host / path / query / fragment (holes of length <= 2) and of an escaped Latin-1 letter (%C3%80..9E vs %C3%A0..BE) in path / query / fragment; gl / hl items on a plain host and on youtube / facebook hosts; any port 1..65535 (symbolic 1-5 digit string); "
              "language labels 'xx' and 'xx-yy' with symbolic letters drawn from the ISO-3166 set in front of hosts with 2 and 3 labels; gl / hl items at 3 positions with symbolic values; "
              "strip_suffix=True across 10 bundled suffixes of 1-4 labels (plain / wildcard instance / private); result has no scheme / userinfo / port on the 19 shared skeletons with holes of length <= 2",
     "thorough": "holes of length <= 3",
@@ -75,6 +75,25 @@ def inv(st, kind, n, strip_suffix):
         st.assume(z_and([z_not(z_or([ceq(c, 38), ceq(c, 35)])) for c in he]), "no & #")
         u = cat("http://x.fr/p?a=1&b=2")
         v = cat("http://x.fr/p?hl=", h, "&a=1&gl=", h, "&b=2&HL=", h)
+    elif kind in ("glhl-youtube", "glhl-facebook"):
+        # hosts that have a query filter of their own
+        st.assume(z_and([z_not(_WS_CTRL.cond(c)) for c in he]), "plain")
+        st.assume(z_and([z_not(z_or([ceq(c, 38), ceq(c, 35)])) for c in he]), "no & #")
+        host = "www.youtube.com/results" if kind == "glhl-youtube" else "www.facebook.com/search"
+        u = cat("https://", host, "?q=cats")
+        v = cat("https://", host, "?hl=", h, "&q=cats&gl=", h)
+    elif kind == "case-escaped":
+        # an upper-case Latin-1 letter written as an escape (%C3%80..%C3%9E) against its lower-case form (%C3%A0..%C3%BE)
+        if n != 2:
+            st.assume(False, "n/a")
+        d1, d2 = he
+        st.assume(z_or([ceq(d1, 0x38), ceq(d1, 0x39)]), "first digit 8 or 9")
+        st.assume(C.CharSet([(0x30, 0x39), (0x41, 0x46), (0x61, 0x66)]).cond(d2), "hex digit")
+        st.assume(z_not(z_and([ceq(d1, 0x39), z_or([ceq(d2, 0x37), ceq(d2, 0x46), ceq(d2, 0x66)])])), "a cased letter (not x D7, sharp s DF)")
+        e1 = z3.If(d1 == 0x38, z3.BitVecVal(0x41, d1.size()), z3.BitVecVal(0x42, d1.size()))
+        lo = mk("str", [e1, d2])
+        u = cat("http://x.fr/p%C3%", h, "t?k=%C3%", h, "#/r%C3%", h)
+        v = cat("http://x.fr/p%C3%", lo, "t?k=%C3%", lo, "#/r%C3%", lo)
     elif kind.startswith("suffix-"):
         i = int(kind[7:])
         st.assume(z_and([C.CharSet([(0x61, 0x7A), (0x30, 0x39)]).cond(c) for c in he]), "label characters")
@@ -105,6 +124,11 @@ def items(tier):
                 if kind == "case-all" and n > 1 and quick:
                     continue
                 out.append({"fn": "inv", "params": {"kind": kind, "n": n, "strip_suffix": ss}, "name": "%s n=%d ss=%s" % (kind, n, ss), "weight": 6 ** n})
+    for kind in ("glhl-youtube", "glhl-facebook"):
+        for n in range(0, nmax + 1):
+            out.append({"fn": "inv", "params": {"kind": kind, "n": n, "strip_suffix": bool(n % 2)}, "name": "%s n=%d" % (kind, n), "weight": 6 ** n})
+    for ss in (False, True):
+        out.append({"fn": "inv", "params": {"kind": "case-escaped", "n": 2, "strip_suffix": ss}, "name": "case-escaped ss=%s" % ss, "weight": 40})
     for n in range(1, 6):
         out.append({"fn": "inv", "params": {"kind": "port", "n": n, "strip_suffix": bool(n % 2)}, "name": "port digits=%d" % n, "weight": 3 ** n})
     for kind, n in (("lang2", 2), ("lang2-3labels", 2), ("lang5", 4)):
